@@ -135,6 +135,35 @@ def norm(text):
     return ' '.join(t for _, _, t in tokens(text))
 
 
+def find_blocks(src, header_re, start=0, end=None):
+    """All items whose header matches header_re followed by a `{ ... }` block."""
+    end = len(src) if end is None else end
+    hits = []
+    for m in re.finditer(header_re, src[start:end]):
+        pos = start + m.start()
+        line_start = src.rfind('\n', 0, pos) + 1
+        if '//' in src[line_start:pos]:
+            continue
+        j = start + m.end()
+        depth = 0
+        ob = None
+        for p, kind, t in tokens(src, j, end):
+            if kind == 'punct':
+                if t in '([':
+                    depth += 1
+                elif t in ')]':
+                    depth -= 1
+                elif t == '{' and depth == 0:
+                    ob = p
+                    break
+                elif t == ';' and depth == 0:
+                    break
+        if ob is None:
+            continue
+        hits.append((pos, ob, match_brace(src, ob)))
+    return hits
+
+
 def find_block(src, header_re, start=0, end=None):
     """Find the unique item whose header matches header_re (regex over the raw
     text, comments not considered) followed by a `{ ... }` block.
@@ -187,7 +216,14 @@ def extract_fn(src, name, impl_re=None, file='?', mod_re=None):
         _, ob, cb = find_block(src, mod_re, lo, hi)
         lo, hi = ob + 1, cb
     if impl_re:
-        _, ob, cb = find_block(src, impl_re, lo, hi)
+        # several impl blocks may share a header (e.g. `impl<R> Foo<R>` twice): take the one
+        # (exactly one) that holds `fn name`
+        blocks = find_blocks(src, impl_re, lo, hi)
+        hdr0 = r'\bfn\s+' + re.escape(name) + r'\b'
+        holding = [(ob, cb) for _, ob, cb in blocks if re.search(hdr0, strip_comments(src[ob:cb]))]
+        if len(holding) != 1:
+            raise LostAnchor(f'header /{impl_re}/ holding fn {name}: {len(holding)} blocks of {len(blocks)} (need exactly 1)')
+        ob, cb = holding[0]
         lo, hi = ob + 1, cb
     hdr = r'(?:pub(?:\([a-z:A-Z_ ]+\))?\s+)?(?:const\s+)?(?:unsafe\s+)?fn\s+' + re.escape(name) + r'\b'
     # only functions at nesting depth 0 of [lo,hi)
